@@ -119,6 +119,39 @@ type checkRun struct {
 	res       map[*Obl]SolveResult
 	work      string
 	writeBase bool
+	vacuous   []string
+	coverOK   int
+	coverUnknown int
+}
+
+// coverObligations: vacuity guards.  For every function its precondition (with the type
+// invariants) must be satisfiable and at least the first return must be reachable; in
+// thorough every obligation's path condition must be satisfiable.
+func (cr *checkRun) coverObligations() []*Obl {
+	var cs []*Obl
+	for k, enc := range cr.encs {
+		if enc.Fn == nil {
+			continue
+		}
+		cs = append(cs, &Obl{Name: k + "#cover.pre", Kind: "cover", Func: k, PC: enc.prePC, Cond: "false", NDecls: enc.preNDecls, enc: enc})
+		if enc.top != nil && len(enc.top.rets) > 0 {
+			var pcs []string
+			for _, r := range enc.top.rets {
+				pcs = append(pcs, r.pc)
+			}
+			cs = append(cs, &Obl{Name: k + "#cover.return", Kind: "cover", Func: k, PC: or(pcs...), Cond: "false", NDecls: len(enc.decls), enc: enc})
+		}
+	}
+	if cr.tier == "thorough" {
+		for _, o := range cr.obls {
+			if o.enc.Fn == nil || o.PC == "true" {
+				continue
+			}
+			cs = append(cs, &Obl{Name: o.Name + "#cover.reach", Kind: "cover", Func: o.Func, PC: o.PC, Cond: "false", NDecls: o.NDecls, enc: o.enc})
+		}
+	}
+	sort.Slice(cs, func(i, j int) bool { return cs[i].Name < cs[j].Name })
+	return cs
 }
 
 func cmdCheck(args []string) int {
@@ -195,7 +228,27 @@ func (cr *checkRun) run(start time.Time) int {
 			_ = fc
 		}
 	}
-	cr.res = dischargeAll(cr.obls, cr.work, timeout, cross, 14)
+	covers := cr.coverObligations()
+	all := append(append([]*Obl{}, cr.obls...), covers...)
+	cr.res = dischargeAll(all, cr.work, timeout, cross && false, 14)
+	if cross {
+		// thorough: every proof obligation confirmed by a second solver
+		r2 := dischargeAll(cr.obls, filepath.Join(cr.work), timeout, true, 14)
+		for o, r := range r2 {
+			cr.res[o] = r
+		}
+	}
+	for _, c := range covers {
+		r := cr.res[c]
+		switch r.Status {
+		case "sat":
+			cr.coverOK++
+		case "unsat":
+			cr.vacuous = append(cr.vacuous, c.Name)
+		default:
+			cr.coverUnknown++
+		}
+	}
 	// retry non-definite answers once with a longer timeout (keeps quick runs stable)
 	var retry []*Obl
 	for _, o := range cr.obls {
@@ -335,6 +388,10 @@ func (cr *checkRun) judge(start time.Time, stale []string) int {
 	cr.writeEvidence(start, reports, nObl, discharged, byBackend, solverSecs, violations, undecided, stale, missing, knownLines, knownNotes)
 	fmt.Printf("%s %s: %d obligations, %d discharged, %d undecided, %d violations, %d known findings, %.1fs\n",
 		p, cr.tier, nObl, discharged, len(undecided), len(violations), len(knownLines), time.Since(start).Seconds())
+	for _, v := range cr.vacuous {
+		fmt.Printf("VACUOUS: %s (path condition unsatisfiable: contradictory requires/assumptions)\n", v)
+		engineErr = true
+	}
 	if engineErr {
 		return 2
 	}
@@ -502,14 +559,21 @@ func (cr *checkRun) writeEvidence(start time.Time, reports []oblReport, nObl, di
 			"known_findings_notes":     nonNil(knownNotes),
 			"violating_obligations":    nonNil(violations),
 			"bounded":                  []string{},
+			"vacuity_covers_sat":       cr.coverOK,
+			"vacuity_covers_unknown":   cr.coverUnknown,
+			"vacuous":                  nonNil(cr.vacuous),
 		},
 		"assumptions": assumptions,
 		"wall_s":      time.Since(start).Seconds(),
 		"violations":  len(violations),
 	}
 	b, _ := json.MarshalIndent(ev, "", " ")
-	os.MkdirAll(filepath.Join(verifDir, "evidence"), 0o755)
-	os.WriteFile(filepath.Join(verifDir, "evidence", cr.prop+".json"), append(b, '\n'), 0o644)
+	evDir := filepath.Join(verifDir, "evidence")
+	if d := os.Getenv("GOWP_EVIDENCE_DIR"); d != "" {
+		evDir = d
+	}
+	os.MkdirAll(evDir, 0o755)
+	os.WriteFile(filepath.Join(evDir, cr.prop+".json"), append(b, '\n'), 0o644)
 }
 
 func maxInt(a, b int) int {
